@@ -444,7 +444,8 @@ class ExplicitComponent(Component):
                 return
 
             # Jacobian and vectors are all unscaled, dimensional
-            with self._unscaled_context(outputs=[self._outputs], residuals=[d_residuals]):
+            with self._unscaled_context(outputs=[self._outputs, d_outputs],
+                                        residuals=[d_residuals]):
 
                 # set appropriate vectors to read_only to help prevent user error
                 if mode == 'fwd':
